@@ -533,7 +533,9 @@ class Tr:
         form = self.vm_form(t.value)
         if form == "data":
             return VM, self.use_vm(s)
-        if form is None and isinstance(t.value, ast.Name) and self.lookup(t.value) == "M" and t.value.id in self.fresh:
+        if form == "da":
+            self.err(s, "store through the DataArray's own indexing (xarray indexing) is not modelled: .data expected")
+        if isinstance(t.value, ast.Name) and self.lookup(t.value) == "M" and t.value.id in self.fresh:
             return t.value.id, self.coq(t.value.id)
         self.err(s, f"store into an array that may be aliased (neither <cv>[\"validity_mask\"].data nor a local np.full): {ast.unparse(t.value)}")
         return None
